@@ -87,6 +87,17 @@ def statement_products():
     for (s1n, s1), (s2n, s2) in itertools.product(STATEMENTS, STATEMENTS):
         yield ('sequence', s1n, s2n), '%s %s' % (s1, s2)
         yield ('sequence_in_function', s1n, s2n), 'function f() { %s %s }' % (s1, s2)
+    # runs of three where at least one statement is nothing but layout to a printer (';', '{}', ';;'): what
+    # happens to a separator depends on the whole run of layout around it, up to the end of the output
+    reduced = [x for x in STATEMENTS if x[0] in ('empty', 'empty_block', 'block', 'expr', 'return', 'var', 'function', 'if',
+                                                 'dowhile', 'for')] + [('two_empty', ';;')]
+    for (s1n, s1), (s2n, s2), (s3n, s3) in itertools.product(reduced, repeat=3):
+        if not {s1n, s2n, s3n} & {'empty', 'empty_block', 'two_empty'}:
+            continue
+        yield ('triple', s1n, s2n, s3n), '%s %s %s' % (s1, s2, s3)
+        yield ('triple_in_function', s1n, s2n, s3n), 'function f() { %s %s %s }' % (s1, s2, s3)
+        if s3n in ('empty_block', 'block'):
+            yield ('triple_in_block', s1n, s2n, s3n), 'if (x) { %s %s %s }' % (s1, s2, s3)
 
 
 def keyword_adjacency():
